@@ -8,7 +8,7 @@ import time
 import z3
 
 from . import theory as T
-from . import types as TY
+from . import tys as TY
 
 TIMEOUT_MS = int(os.environ.get('PYVC_TIMEOUT_MS', '10000'))
 FIRST_TIMEOUT_MS = int(os.environ.get('PYVC_FIRST_TIMEOUT_MS', '3000'))
